@@ -711,6 +711,8 @@ class Verifier(Exec):
         if op == '*':
             a = self.resolve_ptr(st, x, self.cur_detail)
             v = self.load(st, a)
+            if isinstance(v, Opaque) and a[0] == 'fld':
+                v = Opaque(v.term, v.tid, ('field', a[2]))
             if a[0] != 'cell' and self.addr_root(a)[0] != 'cell':
                 v = self.named(self.regprefix(ins), v)
                 self.assume_valid(v, ins['type'])
@@ -982,9 +984,20 @@ class Verifier(Exec):
     def do_call(self, st, ins):
         c = ins['call']
         if c.get('invoke'):
-            return self.unknown_call(st, ins, 'interface method %s' % c['invoke'])
+            # interface method: assumed contract keyed by interface type and method name
+            recv = self.val(st, c['value'])
+            args = [recv] + [self.val(st, a) for a in c['args']]
+            it = self.T(c['recvtype'])
+            key = '%s::%s.%s' % (it.get('pkg', ''), it.get('name', c['recvtype']), c['invoke'])
+            spec = self.specs.funcs.get(key)
+            if spec is None or not spec.trusted:
+                return self.unknown_call(st, ins, 'interface method %s' % key)
+            return self.contract_call(st, ins, key, spec, args)
         fv = self.val(st, c['value'])
         args = [self.val(st, a) for a in c['args']]
+        if isinstance(fv, Opaque):
+            # call through a function value: allowed only as a declared effect
+            return self.effect_call(st, ins, fv, args)
         if isinstance(fv, FuncV) and fv.name.startswith('builtin:'):
             return self.do_builtin(st, ins, fv.name[8:], args, c)
         if isinstance(fv, FuncV):
@@ -994,10 +1007,41 @@ class Verifier(Exec):
             spec = self.find_spec(callee)
             if self.opts.get('inline') and callee in self.prog.funcs and not (spec is not None and spec.trusted):
                 return self.inline_call(st, ins, callee, args, fv.bindings)
+            if spec is None and callee in self.prog.funcs and self.prog.funcs[callee].get('parent') in (self.fname, getattr(self, 'root_fname', self.fname)) and not S.CFG(self.prog.funcs[callee]).loops:
+                # a loop-free closure of this very function without its own contract: executed in place
+                self.ctx.notes.append('closure %s executed in place (no separate contract)' % short_fn(callee))
+                return self.inline_call(st, ins, callee, args, fv.bindings)
             if spec is None:
                 return self.unknown_call(st, ins, callee)
             return self.contract_call(st, ins, callee, spec, args, fv.bindings)
         return self.unknown_call(st, ins, 'dynamic call')
+
+    def effect_check(self, st, kind, fv, what):
+        """declared effects: //@ effect call|send <field> requires E"""
+        fname = fv.info[1] if isinstance(fv, Opaque) and isinstance(fv.info, tuple) and fv.info[0] == 'field' else None
+        decl = None
+        for cl in (self.spec.effects if self.spec else []):
+            mm = re.match(r'^(call|send)\s+([\w.]+)\s+requires\s+(.*)$', cl.text)
+            if mm and mm.group(1) == kind and fname is not None and mm.group(2).split('.')[-1] == fname:
+                decl = (cl, mm.group(3))
+        if decl is None:
+            raise Unsupported('%s through %s is not a declared effect (line %d)' % (kind, what if fname is None else fname, self.cur_line))
+        cl, etxt = decl
+        env = self.spec_env(self.scope_at_line(self.cur_line))
+        t = SpecEval(self, st, env, self.old, cl.src).boolean(parse_expr(etxt))
+        self.oblige(st, 'effect', '%s:%s' % (kind, fname), t, {'clause': '%s %s requires %s' % (kind, fname, etxt)}, cl.props)
+
+    def effect_call(self, st, ins, fv, args):
+        self.effect_check(st, 'call', fv, 'function value')
+        rt = ins.get('type')
+        na = self.ctx.fresh('alloc', INT)
+        self.ctx.assume(le(st.alloc, na))
+        st.alloc = na
+        if rt and not (self.kind(rt) == 'tuple' and not self.U(rt)['elems']):
+            res = self.fresh_value('r:effect', rt, True, None)
+            self.bound_new_addrs(res, rt, st)
+            return res
+        return None
 
     def unknown_call(self, st, ins, what):
         raise Unsupported('call of %s has no contract (line %d)' % (what, self.cur_line))
@@ -1018,6 +1062,8 @@ class Verifier(Exec):
         else:
             # external function: parameter names from spec 'params' option
             pn = spec.opts.get('params')
+            if pn is None and not args:
+                pn = []
             if pn is None or len(pn) != len(args):
                 raise Unsupported('external callee %s: trusted.spec needs a params line with %d names' % (callee, len(args)))
             pnames, ptypes, rnames, fvnames = pn, [None] * len(pn), [], []
@@ -1102,6 +1148,7 @@ class Verifier(Exec):
         opts['depth'] = depth + 1
         sub_ = Verifier(self.prog, self.specs, callee, opts, resolver=self.resolver)
         sub_.ctx = self.ctx
+        sub_.root_fname = getattr(self, 'root_fname', self.fname)
         sub_.spec = None
         sub_.alloc0 = self.alloc0
         sub_.old = self.old
@@ -1682,7 +1729,25 @@ class Verifier(Exec):
         raise Unsupported('range over string/map')
 
     def do_effect(self, st, ins):
-        raise Unsupported('effect instruction ' + ins['op'])
+        op = ins['op']
+        if op == 'Send':
+            ch = self.val(st, ins['chan'])
+            self.effect_check(st, 'send', ch, 'channel')
+            return None
+        if op == 'Select':
+            # every send case is a potential effect; which case fires and what is received is arbitrary
+            for s_ in ins['states']:
+                if s_['dir'] == 1:      # types.SendOnly
+                    self.effect_check(st, 'send', self.val(st, s_['chan']), 'channel')
+            r_ = self.fresh_value('sel', ins['type'], True, st.alloc)
+            idx_ = r_.elems[0]
+            n_ = len(ins['states'])
+            self.ctx.assume(and_(le(ZERO if ins.get('blocking') else I(-1), idx_), lt(idx_, I(n_))))
+            return r_
+        if op == 'MakeChan':
+            a = self.new_addr(st, 'chan')
+            return Opaque(a, ins['type'])
+        raise Unsupported('effect instruction ' + op)
 
     # ------------------------------------------------------------------ driver
     def run(self):
